@@ -112,6 +112,28 @@ func (w *wr) finish(start int) {
 func pad4(n int) int { return (4 - n%4) % 4 }
 
 // Encode returns the reference encoding of a well-formed packet value.
+// The Lib dialect is "what the library under test speaks" in the two points where the pinned
+// tree deviates from the RFCs (known findings KF1 and KF2). Which way the library goes is
+// observed once at start-up (ProbeDialect) from its own encoder, so that a tree in which a finding
+// has been repaired is fed RFC encodings where the checks need "the library's own encoding".
+// Judging is always done against the RFC dialect.
+var (
+	LibSLI205     = true
+	LibCCFBMinus1 = true
+)
+
+// ProbeDialect sets LibSLI205 and LibCCFBMinus1 from the library's own Marshal output.
+func ProbeDialect() {
+	defer func() { _ = recover() }()
+	if b, err := (&rtcp.SliceLossIndication{SLI: []rtcp.SLIEntry{{First: 1, Number: 2, Picture: 3}}}).Marshal(); err == nil && len(b) >= 2 {
+		LibSLI205 = b[1] == 205
+	}
+	v := &rtcp.CCFeedbackReport{ReportBlocks: []rtcp.CCFeedbackReportBlock{{MediaSSRC: 1, BeginSequence: 10, MetricBlocks: make([]rtcp.CCFeedbackMetricBlock, 3)}}}
+	if b, err := v.Marshal(); err == nil && len(b) >= 16 {
+		LibCCFBMinus1 = int(b[14])<<8|int(b[15]) == 2
+	}
+}
+
 func Encode(p rtcp.Packet, d Dialect) (*Enc, error) {
 	w := &wr{}
 	if err := encodeInto(w, p, d); err != nil {
@@ -246,7 +268,7 @@ func encodeInto(w *wr, p rtcp.Packet, d Dialect) error {
 		w.u32("media_ssrc", v.MediaSSRC)
 	case *rtcp.SliceLossIndication:
 		pt := uint8(206) // RFC 4585 §6.3.2: payload-specific feedback
-		if d == Lib {
+		if d == Lib && LibSLI205 {
 			pt = 205
 		}
 		if len(v.SLI) > 253 {
@@ -302,7 +324,7 @@ func encodeInto(w *wr, p rtcp.Packet, d Dialect) error {
 			w.u32(pre+"ssrc", b.MediaSSRC)
 			w.u16(pre+"begin_seq", b.BeginSequence)
 			nr := uint16(n) // RFC 8888 §3.1: num_reports = number of metric blocks
-			if d == Lib {
+			if d == Lib && LibCCFBMinus1 {
 				if n > 0 {
 					nr = uint16(n - 1)
 				}
